@@ -388,7 +388,7 @@ fn longest_prefix<'a>(pred: &str, iris: &'a [String]) -> Option<&'a String> { ir
 impl Prop for C12 {
     type Case = SdsCase;
     fn id(&self) -> &'static str { "C12" }
-    fn expected_counters(&self) -> Vec<&'static str> { vec!["probe.rearrival_renews_alive_triple", "probe.renewal_raised_derived_expiry", "probe.derived_fact_lost_support", "probe.evaluation_after_total_expiry", "probe.listed_fact_also_derived_with_longer_support", "probe.renewal_travelled_along_a_chain_of_5_or_more"] }
+    fn expected_counters(&self) -> Vec<&'static str> { vec!["probe.rearrival_renews_alive_triple", "probe.renewal_raised_derived_expiry", "probe.derived_fact_lost_support", "probe.evaluation_after_total_expiry", "probe.listed_fact_also_derived_with_longer_support", "probe.renewal_travelled_along_a_chain_of_5_or_more", "probe.derived_fact_with_finite_expiry_in_the_static_namespace"] }
     fn budget(&self, tier: Tier) -> Budget { match tier { Tier::Quick => Budget { runs: 20_000, wall_s: 60, recheck: 30 }, Tier::Thorough => Budget { runs: 600_000, wall_s: 1000, recheck: 100 } } }
     fn hash_seed(&self, c: &SdsCase) -> u64 { c.hash_seed }
     fn gen(&self, seed: u64, _i: u64, _tier: Tier) -> SdsCase {
@@ -416,7 +416,8 @@ impl Prop for C12 {
             if used.is_empty() { continue; }
             // mostly into an output component; with `head_in_window` sometimes onto a predicate of an input window, where the same
             // triple may also be listed by the stream (two kinds of support for one fact)
-            let conc_pred = if head_in_window && r.chance(1, 3) { format!("{}{}", windows[r.usize(windows.len())].iri, r.pick(&locals)) } else { format!("{}{}", r.pick(&outs), r.pick(&["r", "t"])) };
+            let conc_pred = if head_in_window && !statics.is_empty() && r.chance(1, 5) { format!("{}{}", static_iri, r.pick(&["s", "u"])) }   // a head in the static graph's namespace, supported by window facts: it expires like any derived fact
+                else if head_in_window && r.chance(1, 3) { format!("{}{}", windows[r.usize(windows.len())].iri, r.pick(&locals)) } else { format!("{}{}", r.pick(&outs), r.pick(&["r", "t"])) };
             let conc = vec![(r.pick(&used).clone(), conc_pred, r.pick(&used).clone())];
             rules.push(dm::Rule { prem, neg: vec![], conc, filt: vec![] });
         }
@@ -510,6 +511,7 @@ impl Prop for C12 {
             if nset != rset { rayon::sim_reset(); return Some(Violation::new("naive-differs", format!("step {} (t={}): naive_sds_plus yields {} facts, reference {}; e.g. {:?} / {:?}", si, t, nset.len(), rset.len(), nset.difference(&rset).next(), rset.difference(&nset).next()))); }
             // probes
             if refm.iter().any(|(f, e)| base.get(f).map(|be| e > be).unwrap_or(false)) { ctx.hit("probe.listed_fact_also_derived_with_longer_support"); }
+            if refm.iter().any(|(f, e)| f.1.starts_with(c.static_iri.as_str()) && *e != u64::MAX) { ctx.hit("probe.derived_fact_with_finite_expiry_in_the_static_namespace"); }
             if refm.iter().filter(|(f, e)| !base.contains_key(*f) && prev_ref.get(*f).map(|pe| *e > pe).unwrap_or(false)).count() >= 5 { ctx.hit("probe.renewal_travelled_along_a_chain_of_5_or_more"); }
             for (f, e) in &refm { if let Some(pe) = prev_ref.get(f) { if !base.contains_key(f) && e > pe { ctx.hit("probe.renewal_raised_derived_expiry"); } } }
             if prev_ref.keys().any(|f| !base.contains_key(f) && !refm.contains_key(f)) && !prev_ref.is_empty() { ctx.hit("probe.derived_fact_lost_support"); }
